@@ -1,0 +1,188 @@
+//go:build verif
+
+package controller
+
+// Verification hooks. Compiled only with `-tags verif`; used by the external
+// correspondence harness under /verif. Nothing here is reachable from a normal build.
+
+import (
+	"sort"
+	"time"
+
+	"github.com/atlassian/escalator/pkg/cloudprovider"
+	"github.com/pkg/errors"
+	v1 "k8s.io/api/core/v1"
+	"k8s.io/apimachinery/pkg/api/resource"
+	v1lister "k8s.io/client-go/listers/core/v1"
+)
+
+// VerifNewController builds a Controller exactly as NewController does, except that the
+// pod and node listers are supplied by the caller instead of being built from informers.
+func VerifNewController(opts Opts, allPodLister v1lister.PodLister, allNodeLister v1lister.NodeLister) (*Controller, error) {
+	listers := make(map[string]*NodeGroupLister)
+	for _, ng := range opts.NodeGroups {
+		if ng.Name == DefaultNodeGroup {
+			listers[ng.Name] = NewDefaultNodeGroupLister(allPodLister, allNodeLister, ng)
+		} else {
+			listers[ng.Name] = NewNodeGroupLister(allPodLister, allNodeLister, ng)
+		}
+	}
+	client := &Client{opts.K8SClient, listers, allPodLister, allNodeLister}
+
+	cloud, err := opts.CloudProviderBuilder.Build()
+	if err != nil {
+		return nil, errors.Wrap(err, "failed to create cloudprovider")
+	}
+
+	nodegroupMap := make(map[string]*NodeGroupState)
+	for _, nodeGroupOpts := range opts.NodeGroups {
+		cloudProviderNodeGroup, ok := cloud.GetNodeGroup(nodeGroupOpts.CloudProviderGroupName)
+		if !ok {
+			return nil, errors.Errorf("could not find node group \"%v\" on cloud provider", nodeGroupOpts.CloudProviderGroupName)
+		}
+		if nodeGroupOpts.autoDiscoverMinMaxNodeOptions() {
+			nodeGroupOpts.MinNodes = int(cloudProviderNodeGroup.MinSize())
+			nodeGroupOpts.MaxNodes = int(cloudProviderNodeGroup.MaxSize())
+		}
+		nodegroupMap[nodeGroupOpts.Name] = &NodeGroupState{
+			Opts:            nodeGroupOpts,
+			NodeGroupLister: client.Listers[nodeGroupOpts.Name],
+			scaleUpLock: scaleLock{
+				minimumLockDuration: nodeGroupOpts.ScaleUpCoolDownPeriodDuration(),
+				nodegroup:           nodeGroupOpts.Name,
+			},
+			scaleDelta: 0,
+		}
+	}
+
+	return &Controller{
+		Client:        client,
+		Opts:          opts,
+		cloudProvider: cloud,
+		nodeGroups:    nodegroupMap,
+	}, nil
+}
+
+// VerifShiftClock moves every remembered instant d into the past, which is how the harness
+// advances virtual time for the parts of the controller that read the real clock.
+func (c *Controller) VerifShiftClock(d time.Duration) {
+	for _, s := range c.nodeGroups {
+		if !s.scaleUpLock.lockTime.IsZero() {
+			s.scaleUpLock.lockTime = s.scaleUpLock.lockTime.Add(-d)
+		}
+		if !s.lastScaleOut.IsZero() {
+			s.lastScaleOut = s.lastScaleOut.Add(-d)
+		}
+	}
+}
+
+// VerifQuantise replaces instants recorded after `since` by `to` (the scan's nominal start), so that
+// the harness and its model agree on them to the nanosecond.
+func (c *Controller) VerifQuantise(since, to time.Time) {
+	for _, s := range c.nodeGroups {
+		if s.scaleUpLock.lockTime.After(since) {
+			s.scaleUpLock.lockTime = to
+		}
+		if s.lastScaleOut.After(since) {
+			s.lastScaleOut = to
+		}
+	}
+}
+
+// VerifState is a read-only digest of one node group's controller state.
+type VerifState struct {
+	IsLocked          bool
+	Requested         int
+	LockTimeSet       bool
+	LockTimeNs        int64
+	ScaleDelta        int
+	LastScaleOutSet   bool
+	LastScaleOutNs    int64
+	CachedCPUMilli    int64
+	CachedMemMilli    int64
+	TaintTracker      []string
+	ForceTaintTracker []string
+	MinNodes          int
+	MaxNodes          int
+}
+
+// VerifGroupState returns the digest for the named group.
+func (c *Controller) VerifGroupState(name string) (VerifState, bool) {
+	s, ok := c.nodeGroups[name]
+	if !ok {
+		return VerifState{}, false
+	}
+	st := VerifState{
+		IsLocked:          s.scaleUpLock.isLocked,
+		Requested:         s.scaleUpLock.requestedNodes,
+		LockTimeSet:       !s.scaleUpLock.lockTime.IsZero(),
+		ScaleDelta:        s.scaleDelta,
+		LastScaleOutSet:   !s.lastScaleOut.IsZero(),
+		CachedCPUMilli:    s.cpuCapacity.MilliValue(),
+		CachedMemMilli:    s.memCapacity.MilliValue(),
+		TaintTracker:      append([]string{}, s.taintTracker...),
+		ForceTaintTracker: append([]string{}, s.forceTaintTracker...),
+		MinNodes:          s.Opts.MinNodes,
+		MaxNodes:          s.Opts.MaxNodes,
+	}
+	if st.LockTimeSet {
+		st.LockTimeNs = s.scaleUpLock.lockTime.UnixNano()
+	}
+	if st.LastScaleOutSet {
+		st.LastScaleOutNs = s.lastScaleOut.UnixNano()
+	}
+	return st, true
+}
+
+// VerifCloudProvider exposes the provider currently in use (it is replaced on rebuild).
+func (c *Controller) VerifCloudProvider() cloudprovider.CloudProvider {
+	return c.cloudProvider
+}
+
+// VerifCalcPercentUsage calls calcPercentUsage with milli-unit integer arguments.
+func VerifCalcPercentUsage(cpuReqMilli, memReqMilli, cpuCapMilli, memCapMilli, untainted int64) (float64, float64, error) {
+	return calcPercentUsage(
+		*resource.NewMilliQuantity(cpuReqMilli, resource.DecimalSI),
+		*resource.NewMilliQuantity(memReqMilli, resource.BinarySI),
+		*resource.NewMilliQuantity(cpuCapMilli, resource.DecimalSI),
+		*resource.NewMilliQuantity(memCapMilli, resource.BinarySI),
+		untainted)
+}
+
+// VerifCalcScaleUpDelta calls calcScaleUpDelta for n nodes with the given cached capacity.
+func VerifCalcScaleUpDelta(n int, cpuPercent, memPercent float64, cpuReqMilli, memReqMilli, cachedCPUMilli, cachedMemMilli int64, scaleUpThreshold int) (int, error) {
+	nodes := make([]*v1.Node, n)
+	ng := &NodeGroupState{Opts: NodeGroupOptions{Name: "verif", ScaleUpThresholdPercent: scaleUpThreshold}}
+	ng.cpuCapacity = *resource.NewMilliQuantity(cachedCPUMilli, resource.DecimalSI)
+	ng.memCapacity = *resource.NewMilliQuantity(cachedMemMilli, resource.BinarySI)
+	return calcScaleUpDelta(nodes, cpuPercent, memPercent,
+		*resource.NewMilliQuantity(cpuReqMilli, resource.DecimalSI),
+		*resource.NewMilliQuantity(memReqMilli, resource.BinarySI), ng)
+}
+
+func verifSorted(s sort.Interface, bundles []nodeIndexBundle) []int {
+	sort.Sort(s)
+	out := make([]int, len(bundles))
+	for i, b := range bundles {
+		out[i] = b.index
+	}
+	return out
+}
+
+// VerifSortOldest returns the order (as indices into nodes) in which taintOldestN visits nodes.
+func VerifSortOldest(nodes []*v1.Node) []int {
+	sorted := make(nodesByOldestCreationTime, 0, len(nodes))
+	for i, node := range nodes {
+		sorted = append(sorted, nodeIndexBundle{node, i})
+	}
+	return verifSorted(sorted, sorted)
+}
+
+// VerifSortNewest returns the order (as indices into nodes) in which untaintNewestN visits nodes.
+func VerifSortNewest(nodes []*v1.Node) []int {
+	sorted := make(nodesByNewestCreationTime, 0, len(nodes))
+	for i, node := range nodes {
+		sorted = append(sorted, nodeIndexBundle{node, i})
+	}
+	return verifSorted(sorted, sorted)
+}
